@@ -101,6 +101,9 @@ def main(seed, ncases, driver, out):
             nonlocal bad
             if bad is None: bad = dict(desc, case=c, kind_of_failure=what, **kw)
         try:
+            if Lf is not None and Rf.dtype == Lf.dtype and rnd.random() < 0.35:
+                # right and left vectors as views into one buffer (columns of a stacked [R | L]; the halves of an eigen-decomposition stored together)
+                buf = np.hstack([Rf, Lf]); Rf = buf[:, :m]; Lf = buf[:, m:]; dist["R and L are views of one buffer"] = dist.get("R and L are views of one buffer", 0) + 1
             P = ComplementProjector(Rf) if (L is None and rnd.random() < 0.5) else ComplementProjector(Rf, Rf.copy() if L is None else Lf)
             if P.shape != (n, n): fail("shape", got=list(P.shape))
             want_dtype = np.result_type(Rf.dtype, (Rf if Lf is None else Lf).dtype)
@@ -147,6 +150,10 @@ def main(seed, ncases, driver, out):
                 cmp("vector @ " + tag, Yf[0] @ Q, [mmul(Yr, D)[0]])
                 cmp(tag + ".rmatvec", Q.rmatvec(Xf[:, 0]), [[r[0]] for r in mmul(madj(D), X)])
                 cmp(tag + " @ identity", Q @ np.eye(n), D)
+                # sparse operands (complex entries), as implicit mode hands them over for sparse perturbations
+                for fmt_ in (sparse.csr_array, sparse.csc_array):
+                    gsp = Q @ fmt_(Xf); gsp = gsp.toarray() if sparse.issparse(gsp) else np.asarray(gsp)
+                    cmp(tag + " @ sparse matrix (" + fmt_.__name__ + ")", gsp, mmul(D, X))
                 # the same on tiny operands (high orders, small units): the operator is linear, the error relative to the operand
                 for tiny in (2.0 ** -34, 2.0 ** -44):
                     g1 = np.asarray(Q @ (Xf * tiny)) / tiny; g2 = np.asarray((Yf * tiny) @ Q) / tiny; g3 = np.asarray(Q.rmatvec(Xf[:, 0] * tiny)) / tiny
